@@ -445,6 +445,7 @@ type c17Script struct {
 	chat                                 []time.Duration
 	period                               time.Duration // 0: none
 	chatKind                             string
+	helloKind                            string // what a NEGATIVE first message is: "" a failed connection attempt event, "ka", "ro"
 	trickle                              string
 }
 
@@ -494,6 +495,7 @@ func c17ParseScript(spec string) (*c17Script, error) {
 		sc.setver = &a
 	}
 	sc.ident, sc.closeOther, sc.fin = kv["id"] == "1", kv["xo"] == "1", kv["fin"] == "1"
+	sc.helloKind = kv["hk"]
 	if v := kv["hg"]; v != "-" && v != "" {
 		ms, err := strconv.Atoi(v)
 		if err != nil {
@@ -624,7 +626,14 @@ func (h *c17Host) serveScript(c net.Conn, sc *c17Script, hid c17Identity) {
 			if !sc.hello.ok {
 				st = 1 // failed: a reader-initiated connection already exists
 			}
-			write(helloFrame(st))
+			switch {
+			case !sc.hello.ok && sc.helloKind == "ka": // the wrong first message is a KeepAlive ...
+				write(c17Frame(1, c17MsgKeepAlive, 69999, nil))
+			case !sc.hello.ok && sc.helloKind == "ro": // ... an (empty) tag report
+				write(c17Frame(1, c17MsgROAccessReport, 69999, nil))
+			default:
+				write(helloFrame(st))
+			}
 			close(helloSent)
 		}()
 	}
@@ -1405,3 +1414,4 @@ func TestVerifC17(t *testing.T) {
 		fmt.Fprintln(w, a)
 	}
 }
+
